@@ -102,6 +102,15 @@ func c18JwkFacts(l *lean) {
 		})
 	}
 	l.def("jwkRefusals", "List String", leanStrList(msgs), msgs)
+	// vdr/didsubject/resolver.go: how the resolve time reaches Latest
+	_, sf := parseFile("vdr/didsubject/resolver.go")
+	var rtFlow []string
+	for _, line := range c18FlowOf(funcDecl(sf, "Resolve")) {
+		if strings.Contains(line, "ResolveTime") || strings.Contains(line, "Latest(") {
+			rtFlow = append(rtFlow, line)
+		}
+	}
+	l.def("localResolveTimeFlow", "List String", leanStrList(rtFlow), rtFlow)
 	// vdr/resolver/did.go: the chain loop, the router lookup / registration, deactivatedError.Is
 	_, rf := parseFile("vdr/resolver/did.go")
 	for _, d := range rf.Decls {
